@@ -1,31 +1,21 @@
-import Dhcp.Label
+import DhcpProofs.Lemmas.LabelApi
 /-
-  Panic-freedom of the rfc1035label decoder model, used by C03 (the DHCPv6
-  decoders call it for options 24, 39 and the NTP FQDN sub-option).
-  Kept in its own file: `Dhcp/Label.lean` is a temporary model that the C19
-  work replaces; only the three statements below are used elsewhere.
+  Panic-freedom of the rfc1035label decoder model, as used by C03 (the DHCPv6
+  decoders call `Label.fromBytes` for options 24, 39 and the NTP FQDN
+  sub-option).  The temporary label model this file was first written against
+  has been replaced by the C19 model, whose lemma file already proves
+
+      Dhcp.Label.labelsFromBytes_ne_panic : labelsFromBytes b ≠ .panic
+      Dhcp.Label.fromBytes_ne_panic       : fromBytes b ≠ .panic
+
+  (DhcpProofs/Lemmas/LabelApi.lean; in that model running out of loop fuel is
+  mapped to `panic` too, so the statement also covers termination of the label
+  loop).  This file only names the dependency: C03 needs nothing else from the
+  label development.
 -/
 namespace Dhcp.Label
-open Dhcp
 
-theorem loop_ne_panic (buf : Bytes) : ∀ (fuel pos oldPos : Nat) (label : Bytes) (hp : Bool) (acc : List Bytes),
-    loop buf fuel pos oldPos label hp acc ≠ .panic := by
-  intro fuel
-  induction fuel with
-  | zero => intro pos oldPos label hp acc; simp [loop]
-  | succ fuel ih =>
-    intro pos oldPos label hp acc
-    unfold loop
-    simp only []
-    repeat' split
-    all_goals first | exact ih _ _ _ _ _ | simp
-
-theorem labelsFromBytes_ne_panic (buf : Bytes) : labelsFromBytes buf ≠ .panic :=
-  loop_ne_panic buf _ _ _ _ _ _
-
-theorem fromBytes_ne_panic (data : Bytes) : fromBytes data ≠ .panic := by
-  unfold fromBytes
-  have h := labelsFromBytes_ne_panic data
-  split <;> simp_all
+/-- the one fact C03 uses about labels -/
+theorem c03_label_dependency (b : Bytes) : fromBytes b ≠ .panic := fromBytes_ne_panic b
 
 end Dhcp.Label
